@@ -537,23 +537,52 @@ ctl!(Ctl8, (Read<'c, R<3>>, Read<'c, R<2>>, Write<'c, R<1>>));
 
 /// the library's `MultiDispatcher` around a `MultiDispatchController` that plans a fixed number
 /// of inner dispatches; the harness wrapper only adds the window events around the library's `run`
-pub struct Plan9(pub usize);
+/// what `plan` answers: the planned number the first time it is asked in a run of the controller
+/// (the library asks once per run); asked again within the same run - which only code that
+/// re-evaluates the plan does - it answers something else (0, or n + 2 for n < 2), so that such
+/// code runs another number of inner dispatches than planned
+pub struct PlanCore {
+    pub n: usize,
+    pub probe: Option<(Arc<Shared>, usize)>,
+    pub last_epoch: usize,
+}
+impl PlanCore {
+    pub fn fixed(n: usize) -> PlanCore {
+        PlanCore { n, probe: None, last_epoch: usize::MAX }
+    }
+    /// for controllers inside the harness wrapper `MCtl`, whose `go` counts the runs of batch `tag`
+    pub fn probing(n: usize, shared: &Arc<Shared>, tag: usize) -> PlanCore {
+        PlanCore { n, probe: Some((shared.clone(), tag)), last_epoch: usize::MAX }
+    }
+    fn answer(&mut self) -> usize {
+        if let Some((sh, tag)) = &self.probe {
+            let e = sh.behav[*tag].multi_epoch.load(SeqCst);
+            if e == self.last_epoch {
+                return if self.n >= 2 { 0 } else { self.n + 2 };
+            }
+            self.last_epoch = e;
+        }
+        self.n
+    }
+}
+pub struct Plan9(pub PlanCore);
 impl<'a> MultiDispatchController<'a> for Plan9 {
     type SystemData = ();
     fn plan(&mut self, _: ()) -> usize {
-        self.0
+        self.0.answer()
     }
 }
-pub struct Plan10(pub usize);
+pub struct Plan10(pub PlanCore);
 impl<'a> MultiDispatchController<'a> for Plan10 {
     type SystemData = (Write<'a, R<5>>, Read<'a, R<3>>);
     fn plan(&mut self, _: Self::SystemData) -> usize {
-        self.0
+        self.0.answer()
     }
 }
 pub struct MCtl<C>(pub CtlCore, pub MultiDispatcher<C>);
 impl<'a, 'b, 'c, C: MultiDispatchController<'c>> BatchController<'a, 'b, 'c> for MCtl<C> {
-    type BatchSystemData = C::SystemData;
+    // whatever the library's own `BatchController for MultiDispatcher` declares (not a copy of it)
+    type BatchSystemData = <MultiDispatcher<C> as BatchController<'a, 'b, 'c>>::BatchSystemData;
     fn run(&mut self, w: &'c World, d: &mut Dispatcher<'a, 'b>) {
         let m = &mut self.1;
         self.0.go(w, d, Some(&mut |w2: &'c World, d2: &mut Dispatcher<'a, 'b>| m.run(w2, d2)));
